@@ -740,6 +740,26 @@ def C_axis_windows(repo, clause, only_images=False):
         obs.append(Ob("Caxis", clause, win, nn[0], axv in (1, -1),
                       "lengths of the plane normals are taken per ROW (axis=1) of the stacked normals (found axis=%s)" % axv, slot="normal-norms-axis",
                       positive=ax is not None and axv is not None))
+    # inward sign of each plane: the stacked normals (a matrix whose ROWS are the normals) times the cell centre - matrix first
+    for n_ in win.own_nodes():
+        if isinstance(n_, ast.Assign) and isinstance(n_.value, ast.Call) and call_name(n_.value) in ("dot", "matmul") and len(n_.value.args) == 2:
+            a0, a1 = n_.value.args
+            if isinstance(a0, ast.Name) and isinstance(a1, ast.Name) and nvname in (a0.id, a1.id):
+                other = a1 if a0.id == nvname else a0
+                oe = expand(win, other)
+                is_vec = isinstance(oe, ast.BinOp) and any(isinstance(y, ast.Call) and call_name(y) == "sum" for y in ast.walk(oe))
+                if not is_vec:
+                    continue
+                ok_ = a0.id == nvname
+                obs.append(Ob("Caxis", clause, win, n_, ok_,
+                              "signed distance of the cell centre from the three planes = (rows of the normal matrix) . centre: %s" % (
+                                  "np.dot(%s, %s)" % (a0.id, a1.id) if ok_ else
+                                  "np.dot(%s, %s) multiplies the centre with the COLUMNS of the normal matrix - the three numbers are not the plane distances and the inward signs come out wrong for strongly tilted cells" % (a0.id, a1.id)),
+                              slot="centre-distance-order", positive=not ok_))
+        elif isinstance(n_, ast.Assign) and isinstance(n_.value, ast.BinOp) and isinstance(n_.value.op, ast.MatMult):
+            a0, a1 = n_.value.left, n_.value.right
+            if isinstance(a0, ast.Name) and isinstance(a1, ast.Name) and nvname in (a0.id, a1.id) and a1.id == nvname:
+                obs.append(Ob("Caxis", clause, win, n_, False, "`%s @ %s` multiplies the centre with the columns of the normal matrix" % (a0.id, a1.id), slot="centre-distance-order", positive=True))
     # start atoms from the home block
     return obs
 
@@ -1041,6 +1061,20 @@ def _roll_sign(repo, clause):
                                 hit.add(y.id)
             return hit
         for t, pol, k in norm_guards(fn, flip_node):
+            # the other conjunct may only exclude the two angles at which the sense is undefined (exactly 0 and exactly pi)
+            conj_ = t.values if isinstance(t, ast.BoolOp) and isinstance(t.op, ast.And) else [t]
+            for cj in conj_:
+                if any(isinstance(y, ast.Call) and call_name(y) == "cross" for y in ast.walk(cj)):
+                    continue
+                if not any(isinstance(y, ast.Name) and y.id == ang for y in ast.walk(cj)):
+                    continue
+                tol_ = [y for y in ast.walk(cj) if isinstance(y, ast.Call) and call_name(y) in ("isclose", "allclose")]
+                exact = isinstance(cj, ast.Compare) and len(cj.ops) == 1 and isinstance(cj.ops[0], (ast.NotIn, ast.NotEq))
+                obs.append(Ob("Cquat", clause, fn, cj, exact and not tol_,
+                              "the sense test is skipped only for %s" % ("angles exactly 0 or pi (`%s`)" % ast.unparse(cj) if exact and not tol_ else (
+                                  "angles WITHIN A TOLERANCE of 0 or pi (`%s`): a small twist of that size is rolled the wrong way in one of its two senses, so exact copies are missed at tight atol" % ast.unparse(cj)[:70]
+                                  if tol_ else "`%s` (not recognised)" % ast.unparse(cj)[:60])),
+                              slot="roll-sense-exclusion", positive=bool(tol_), undecided=not tol_ and not exact))
             for c in [x for x in ast.walk(t) if isinstance(x, ast.Call) and call_name(x) in ("isclose", "allclose") and len(x.args) >= 2]:
                 other = [a for a in c.args[:2] if any(isinstance(y, ast.Call) and call_name(y) == "cross" for y in ast.walk(a))]
                 if len(other) != 1:
